@@ -54,6 +54,7 @@ PUSH_BASED = ("next", "prev", "linear", "step")
 
 class C09(Property):
     id = "C09"
+    anchors = ('finam.sdk.output:Output._clear_data', 'finam.sdk.adapter:Adapter.pinged')
     technique = "differential monitor against an unlimited-history model on recorded push/pull interleavings; retained-length bound checked after every event; icontract class invariant on Output"
     rule = (
         "interleavings of publications (increasing times, random gaps) and pulls by 1-4 consumers with non-decreasing request times each, "
